@@ -167,6 +167,13 @@ func ComputeView(c *cache.RepoCache) (v View, staged bool) {
 			return "ok"
 		})
 	}
+	guard(v, "bugs-query-nil|", func() string {
+		ids, err := c.Bugs().Query(nil)
+		if err != nil {
+			return "error: " + err.Error()
+		}
+		return idList(ids)
+	})
 	guard(v, "valid-labels|", func() string { return fmt.Sprintf("%q", c.Bugs().ValidLabels()) })
 	for _, qs := range Catalogue {
 		qs := qs
@@ -277,6 +284,30 @@ func Diff(live, rebuilt View) map[string]string {
 	for k, rv := range rebuilt {
 		if _, ok := live[k]; !ok {
 			out[k] = fmt.Sprintf("rebuilt cache serves %q, the live cache has no such entry", rv)
+		}
+	}
+	// the per-entity observables follow the listing: when the listings differ, what is served for
+	// an id that only one side lists says nothing more than the listing difference itself
+	for listing, prefix := range map[string]string{"bugs-allids|": "bug-", "identities-allids|": "identity-"} {
+		if _, differs := out[listing]; !differs {
+			continue
+		}
+		count := map[string]int{}
+		for _, side := range []View{live, rebuilt} {
+			for _, id := range strings.Split(side[listing], ",") {
+				if id != "" {
+					count[id]++
+				}
+			}
+		}
+		for k := range out {
+			i := strings.IndexByte(k, '|')
+			if i < 0 || !strings.HasPrefix(k, prefix) {
+				continue
+			}
+			if n, listed := count[k[i+1:]]; listed && n == 1 {
+				delete(out, k)
+			}
 		}
 	}
 	return out
